@@ -11,7 +11,7 @@ RULE = ("every string up to the length bound over alphabets of 1..4 letters (and
         "find_neighbor_pairs_index, calculate_neighbor_numbers, isdist1; nndist_hamming over all 4-letter strings x all reference subsets; "
         "non-trivial = non-empty expected neighbourhood")
 ASSUMPTIONS = ["alphabets of more than 4 letters only through the default 20-letter alphabet on short strings"]
-REQUIRED_CLASSES = {"all": ["empty-string", "homopolymer", "repeated-run", "letter-outside-alphabet", "position-subset", "default-20-letter-alphabet", "nndist-cutoff"]}
+REQUIRED_CLASSES = {"all": ["empty-string", "homopolymer", "repeated-run", "letter-outside-alphabet", "position-subset", "default-20-letter-alphabet", "nndist-cutoff", "mixed-length-reference", "more-than-255-neighbours"]}
 MIN_OUTCOMES = 10
 AA = "ACDEFGHIKLMNPQRSTVWY"
 
@@ -40,12 +40,19 @@ def spaces(tier):
         refset = ["ACDA", "ACDD", "CCDA", "DDDD", "ACAC", "CADC"]
         for sub in E.subsets(range(len(refset)), 1):
             yield ("nndist", sub)
+        for sub in E.subsets(range(len(MIXED_REF)), 1):
+            yield ("nndist-mixed", sub)
+        yield ("hub", "CASSLGF")
+        yield ("hub", "CASSLGQAYEQYFG")
 
     return [
         Space("generators-all-strings", gen_gen, "all strings: lengths <= 6,6,5,4 (quick) / 8,8,6,5 (thorough) over alphabets of 1,2,3,4 letters; strings with a letter outside the alphabet; U(AC,3|4) over the 20-letter default", shards=32),
         Space("set-utilities-all-subsets", gen_sets, "every non-empty subset of U(AC,2) (127) and of a 9-string mixed-length family (511) x both neighbourhoods"),
         Space("nndist_hamming", gen_nn, "seq in all 81 four-letter strings over ACD x every non-empty subset of a 6-string reference x maxdist 1..4 (5 must raise NotImplementedError)"),
     ]
+
+
+MIXED_REF = ["ACD", "ACDAA", "CDA", "ACDD", "AACDA", "DDDDD", "ACA"]     # lengths 3..5 around the 4-letter queries
 
 
 def check_case(case, acc):
@@ -196,9 +203,52 @@ def check_case(case, acc):
             acc.fail("nndist_hamming/maxdist>4-accepted", case, "NotImplementedError", r)
         else:
             acc.ok()
+    elif kind == "nndist-mixed":
+        # references of other lengths are never Hamming neighbours (an indel neighbour must not count as distance 1)
+        ref = {MIXED_REF[i] for i in case[1]}
+        acc.cls("mixed-length-reference")
+        for t in itertools.product("ACD", repeat=4):
+            x = "".join(t)
+            same = [ref_hamming(x, b) for b in ref if len(b) == len(x)]
+            true = min(same) if same else float("inf")
+            for md in (1, 2, 3, 4):
+                r = acc.call(pyrepseq.nndist_hamming, x, ref, maxdist=md)
+                if raised(r) or r != min(true, md):
+                    acc.fail("nndist_hamming/mixed-length-reference", ("nn1", x, tuple(sorted(ref)), md), min(true, md), r)
+                    return
+                acc.ok(("nnm", min(true, md)), nontrivial=bool(same))
+    elif kind == "hub":
+        # a sequence with several hundred distance-1 partners inside the reference (20-letter alphabet): counts beyond 255
+        hub = case[1]
+        acc.cls("more-than-255-neighbours")
+        AA20 = "ACDEFGHIKLMNPQRSTVWY"
+        for nb, step, fn in (("levenshtein", naive_one_edit, pyrepseq.levenshtein_neighbors), ("hamming", naive_one_sub, pyrepseq.hamming_neighbors)):
+            ball = step(hub, AA20)
+            reference = set(ball) | {hub}
+            seqs = [hub, sorted(ball)[0], "W" * len(hub), sorted(ball)[-1]]
+            dist = ref_lev if nb == "levenshtein" else ref_hamming
+            exp = [sum(1 for b in reference if dist(a, b) == 1) for a in seqs]
+            r = acc.call(pyrepseq.calculate_neighbor_numbers, seqs, reference=reference, neighborhood=fn)
+            if raised(r) or [int(v) for v in r] != exp:
+                acc.fail("calculate_neighbor_numbers/%s/large-counts" % nb, case, exp, r)
+                return
+            if len(hub) > 8:
+                acc.ok(("hub", nb, exp[0]), nontrivial=True)
+                continue
+            r = acc.call(pyrepseq.calculate_neighbor_numbers, sorted(reference), neighborhood=fn)
+            e2 = [sum(1 for b in reference if dist(a, b) == 1) for a in sorted(reference)]
+            if raised(r) or [int(v) for v in r] != e2:
+                acc.fail("calculate_neighbor_numbers/%s/large-counts" % nb, case, e2[:10], r if raised(r) else [int(v) for v in r][:10])
+                return
+            pairs = acc.call(pyrepseq.find_neighbor_pairs, sorted(reference), fn)
+            np_exp = sum(e2) // 2
+            if raised(pairs) or len(pairs) != np_exp or len({frozenset(p) for p in pairs}) != np_exp:
+                acc.fail("find_neighbor_pairs/%s/large-set" % nb, case, np_exp, pairs if raised(pairs) else len(pairs))
+                return
+            acc.ok(("hub", nb, exp[0]), nontrivial=True)
     elif kind == "nn1":
         _, x, ref, md = case
-        true = min(ref_hamming(x, b) for b in ref)
+        true = min([ref_hamming(x, b) for b in ref if len(b) == len(x)] or [float("inf")])
         r = acc.call(pyrepseq.nndist_hamming, x, set(ref), maxdist=md)
         if raised(r) or r != min(true, md):
             acc.fail("nndist_hamming/value", case, min(true, md), r)
